@@ -247,7 +247,10 @@ def pgl_checks(run, A, X, det1):
     try:
         with warnings.catch_warnings():
             warnings.simplefilter("ignore")
-            R = num(L.o_to_pgl(X.copy()))
+            raw = L.o_to_pgl(X.copy())
+            if not isinstance(raw, np.ndarray) or raw.shape != (2, 2):
+                return None, ("o_to_pgl.returns_2x2_array", "o_to_pgl(X) is a %s of shape %r" % (type(raw).__name__, getattr(raw, "shape", None)))
+            R = num(raw)
             Rm = num(L.o_to_pgl(-X.copy()))
             Rw = num(L.hom.so21_to_sl2()(X.copy()))
             Rh = num(hyperbolic.Isometry.from_sl2(A.copy()).to_sl2()) if det1 else None
